@@ -947,7 +947,9 @@ func C03UnwindVariableInLaterMatch(q *cypher.RegularQuery) bool {
 				}
 				first, isNode := part.PatternElements[0].AsNodePattern()
 				rel, isRel := part.PatternElements[1].AsRelationshipPattern()
-				if isNode && isRel && first != nil && rel != nil && first.Variable != nil && declaredBefore[first.Variable.Symbol] && rel.Range == nil {
+				// (an exact range is lowered to fixed steps)
+				fixed := rel != nil && (rel.Range == nil || rel.Range.StartIndex != nil && rel.Range.EndIndex != nil && *rel.Range.StartIndex == *rel.Range.EndIndex)
+				if isNode && isRel && first != nil && first.Variable != nil && declaredBefore[first.Variable.Symbol] && fixed {
 					continuesFromBound = true
 				}
 			}
@@ -1383,8 +1385,11 @@ func C03PropertyOfScalarAlias(q *cypher.RegularQuery) bool {
 					if pi, ok := it.(*cypher.ProjectionItem); ok && pi != nil && pi.Alias != nil {
 						if _, isVar := pi.Expression.(*cypher.Variable); !isVar {
 							scalars[pi.Alias.Symbol] = true
-							if c03IsFunction(pi.Expression, "collect") {
-								entityLists[pi.Alias.Symbol] = true
+							// collect(n) is a list of entities; collect(n.name) is a list of values
+							if f, isCall := pi.Expression.(*cypher.FunctionInvocation); isCall && f != nil && c03IsFunction(pi.Expression, "collect") && len(f.Arguments) == 1 {
+								if _, ofVariable := f.Arguments[0].(*cypher.Variable); ofVariable {
+									entityLists[pi.Alias.Symbol] = true
+								}
 							}
 						}
 					}
